@@ -189,7 +189,7 @@ def shard(ctx):
         ctx.evaluations -= 1
         check(ctx, case)
 
-    ctx.run_hypothesis(cases(), oracle, ctx.scale(1200, 30000))
+    ctx.run_hypothesis(cases(), oracle, ctx.scale(6000, 60000))
 
 
 def replay(ctx, case):
